@@ -58,6 +58,7 @@ class CascadeMonitor:
         self.ctx, self.fl = ctx, fl
         self.raw = None  # raw value returned by the innermost Defuzzifier.defuzzify call (copied)
         self.raw_exc = None
+        self.in_process = None
 
     def install(self, probe, extra_classes=()):
         fl = self.fl
@@ -65,6 +66,22 @@ class CascadeMonitor:
             probe.wrap(cls, "defuzzify", after=self._after_defuzzifier, label=f"{cls.__name__}.defuzzify")
         probe.wrap(fl.OutputVariable, "defuzzify", before=self._before, after=self._after)
         probe.wrap(fl.OutputVariable, "clear", after=self._after_clear)
+        probe.wrap(fl.Engine, "process", before=self._before_process, after=self._after_process)
+
+    def _before_process(self, args, kwargs):
+        # "after every defuzzification": processing an engine is what defuzzifies - once per enabled output variable
+        self.in_process = {id(ov): [ov, 0] for ov in args[0].output_variables if ov.enabled}
+        return self.in_process
+
+    def _after_process(self, args, kwargs, token, result, exc):
+        self.in_process = None
+        if exc is not None or token is None:
+            return
+        self.ctx.hit("event:Engine.process observed")
+        for ov, n in token.values():
+            self.ctx.evaluated()
+            if n != 1 and ov.enabled and type(ov) is self.fl.OutputVariable and "defuzzify" not in vars(ov):
+                self.ctx.violation(f"Engine.process defuzzified an enabled output variable {n} times instead of once (its value and previous value do not follow the cascade)", {"variable": ov.name, "fuzzy_output_terms": len(ov.fuzzy.terms), "value": ov.value}, 1, n)
 
     def _after_defuzzifier(self, args, kwargs, token, result, exc):
         if exc is not None:
@@ -78,6 +95,8 @@ class CascadeMonitor:
     def _before(self, args, kwargs):
         ov = args[0]
         self.raw, self.raw_exc = None, None
+        if getattr(self, "in_process", None) and id(ov) in self.in_process:
+            self.in_process[id(ov)][1] += 1
         return {
             "enabled": ov.enabled,
             "value": np.array(ov.value, dtype=float, copy=True),
@@ -336,6 +355,7 @@ def run(ctx):
         reach.report(ctx)
     ctx.exhaustive = True
     ctx.extra["exhaustive_space"] = f"4^n sequences (n<=3 fully, n<={L} with sampled forms/faults) x 2^(n-1) splits x 12 settings x 4 result forms x failure at each call x clear"
+    ctx.require("event:Engine.process observed", "event:processed with an empty fuzzy output")
     ctx.require("hook:OutputVariable.defuzzify", "hook:OutputVariable.clear", "event:defuzzified:batch", "event:defuzzified:scalar", "event:defuzzifier_raised", "event:disabled", "event:clear", "piece:clipped", "piece:kept", "range:left-open", "range:right-open", "range:unbounded", "default:infinite", "law:defuzzifier result left untouched")
     for lp in (0, 1):
         for d in ("nan", "in", "out"):
@@ -368,6 +388,9 @@ def real_engines(ctx, fl):
                 iv.value = rnd.choice([0.1, 0.5, 0.6, 0.9, nan])
             else:
                 iv.value = np.array([rnd.choice([0.1, 0.4, 0.5, 0.9, nan]) for _ in range(rnd.choice([1, 2, 4]))])
+            rb.enabled = rnd.random() > 0.3  # with the block off nothing is activated: the fuzzy output is empty
+            if not rb.enabled:
+                ctx.hit("event:processed with an empty fuzzy output")
             try:
                 engine.process()
             except Exception:
